@@ -59,7 +59,7 @@ class Gen:
             return ['blocked']
         t, self.task = self.task, None
         try:
-            return ['item', t.result()]
+            return ['item', of_payload(t.result())]
         except StopAsyncIteration:
             return ['stop']
 
@@ -75,6 +75,32 @@ class Gen:
         await self.agen.aclose()
 
 
+# Items are integers in the op lists and in the Coq model.  Negative codes stand for payloads that a "falsy" or
+# "is None" test in the code could mistake for "nothing published": the real objects below are what is published, and
+# what comes back is mapped to the code again (by type and value), so the model still sees one opaque item per code.
+PAYLOADS = {-1: None, -2: '', -3: False, -4: (), -5: 0.0, -6: 0, -7: [], -8: {}, -9: b''}
+
+
+def to_payload(n):
+    return PAYLOADS[n] if n in PAYLOADS else n
+
+
+def of_payload(o):
+    for n, p in PAYLOADS.items():
+        if type(o) is type(p) and o == p:
+            return n
+    return o
+
+
+def special_value(rng, used: set):
+    free = [n for n in PAYLOADS if n not in used]
+    if not free or rng.random() >= 0.2:
+        return None
+    n = rng.choice(free)
+    used.add(n)
+    return n
+
+
 async def run_item(cache: bool, ops: list) -> list:
     from nextline.utils.pubsub.item import PubSubItem
     obj = PubSubItem(cache=cache)
@@ -84,13 +110,13 @@ async def run_item(cache: bool, ops: list) -> list:
         k = op[0]
         try:
             if k == 'publish':
-                drive(obj.publish(op[1])); outs.append(['unit'])
+                drive(obj.publish(to_payload(op[1]))); outs.append(['unit'])
             elif k == 'clear':
                 obj.clear(); outs.append(['unit'])
             elif k == 'close':
                 drive(obj.aclose()); outs.append(['unit'])
             elif k == 'latest':
-                outs.append(['latest', obj.latest()])
+                outs.append(['latest', of_payload(obj.latest())])
             elif k == 'sub':
                 gens.append(Gen(obj.subscribe(last=op[1], cache=op[2]))); outs.append(['sid', len(gens) - 1])
             elif k == 'next':
@@ -120,13 +146,13 @@ async def run_broker(ops: list) -> list:
         k = op[0]
         try:
             if k == 'publish':
-                drive(obj.publish(op[1], op[2])); outs.append(['unit'])
+                drive(obj.publish(op[1], to_payload(op[2]))); outs.append(['unit'])
             elif k == 'end':
                 drive(obj.end(op[1])); outs.append(['unit'])
             elif k == 'close':
                 drive(obj.close()); outs.append(['unit'])
             elif k == 'latest':
-                outs.append(['latest', obj.latest(op[1])])
+                outs.append(['latest', of_payload(obj.latest(op[1]))])
             elif k == 'sub':
                 gens.append(Gen(obj.subscribe(op[1], last=op[2]))); outs.append(['sid', len(gens) - 1])
             elif k == 'next':
@@ -153,10 +179,14 @@ def gen_item_case(rng, maxlen: int):
     ops = []
     nsub = 0
     val = 0
+    used: set = set()
     for _ in range(n):
         r = rng.random()
         if r < 0.30:
-            val += 1; ops.append(['publish', val])
+            sp = special_value(rng, used)
+            if sp is None:
+                val += 1
+            ops.append(['publish', val if sp is None else sp])
         elif r < 0.36:
             ops.append(['clear'])
         elif r < 0.41:
@@ -178,11 +208,15 @@ def gen_broker_case(rng, maxlen: int):
     ops = []
     nsub = 0
     val = 0
+    used: set = set()
     for _ in range(n):
         r = rng.random()
         k = rng.randrange(nkeys)
         if r < 0.32:
-            val += 1; ops.append(['publish', k, val])
+            sp = special_value(rng, used)
+            if sp is None:
+                val += 1
+            ops.append(['publish', k, val if sp is None else sp])
         elif r < 0.40:
             ops.append(['end', k])
         elif r < 0.43:
